@@ -144,6 +144,9 @@ func vKeyByID(id string) *vKeyMat {
 		pub = &vUserRSA.PublicKey
 	case id == "p256":
 		pub = &vUserEC.PublicKey
+	case id == "rsa1024_edlabel":
+		// a weak key whose ssh line CALLS itself something strong (parsers go by the blob, not by the label)
+		pub = vRSAPub(1024, 65537)
 	case strings.HasPrefix(id, "rsa"):
 		spec := strings.TrimPrefix(id, "rsa")
 		e := 65537
@@ -181,6 +184,9 @@ func vKeyByID(id string) *vKeyMat {
 		panic("unknown key id " + id)
 	}
 	m := vMatFromPub(pub)
+	if id == "rsa1024_edlabel" {
+		m.ssh = "ssh-ed25519 " + strings.SplitN(m.ssh, " ", 3)[1] + " verif@harness\n"
+	}
 	if id == "rsa2048bige" {
 		m.e = 2000000000
 	}
